@@ -32,7 +32,8 @@ func TestMain(m *testing.M) {
 		Rule: "rapid-generated well-formed meshes (triangle/point topology, 0..8 vertices, any index pattern incl. shared, duplicated and unreferenced vertices, any subset of 11 attributes of arity 1..4 plus a hidden vertex-id attribute, optional material ranges) x one of 33 operations/compositions with generated parameters. " +
 			"Oracle: reference implementations written from each contract over per-corner attribute tuples compared by bit pattern (layout operations) or the stated per-vertex map in float64 (attribute transforms), plus 'everything else bit-identical' (indices, topology, materials, all other attributes). " +
 			"Non-trivial = the mesh has a shared vertex and an unreferenced or duplicated one, or >= 3 attributes, and at least one primitive; for drop-type operations at least one primitive survives and one is dropped. Distinct by case JSON. " +
-			"Sub-checks large-meshes (recipe-built meshes above 65 536 vertices) and concurrent-callers: every concurrent-* case (2-5 bundled cases run at the same time after each passed alone) is non-trivial.",
+			"Sub-checks large-meshes (recipe-built meshes above 65 536 vertices) and concurrent-callers: every concurrent-* case (2-5 bundled cases run at the same time after each passed alone) is non-trivial. " +
+			"One case in four of the operations without an absolute length in their contract runs at an overall scale 1e-9..1e-3 or 1e3..1e9 (classes scale/small, scale/large).",
 		Assumptions: []string{
 			"attribute filters and crop are exercised on point topology only (the only topology their callers use)",
 			"crop is specified per vertex (it rebuilds an identity-indexed cloud from the vertices inside the box)",
